@@ -31,7 +31,9 @@ pub fn spec_for(prop: &str) -> Option<Spec> {
 }
 
 pub fn execute(plan: &Plan, ctx: &mut Ctx) {
+    crate::stubs::CLOCK_TICK_PER_GET.with(|c| c.set(0));
     execute_world(plan, ctx);
+    crate::stubs::CLOCK_TICK_PER_GET.with(|c| c.set(0));
     if plan.prop == "C16" {
         // in the C16 plan family every oracle failure or panic is a scratch-slot / bounds symptom
         let extra: Vec<crate::core::Violation> = ctx
